@@ -200,7 +200,7 @@ func genOptions(r *Rng) []byte {
 	for i := 0; i < n; i++ {
 		var code uint16
 		var data []byte
-		switch r.Intn(14) {
+		switch r.Intn(16) {
 		case 0: // LLQ
 			code, data = 1, r.Bytes(18)
 		case 1: // UL
@@ -260,6 +260,10 @@ func genOptions(r *Rng) []byte {
 			data = genBlob(r, 30)
 		case 13:
 			code, data = 3, nil
+		case 14: // REPORTING: an agent domain
+			code, data = 18, wireOf(genLabels(r, r.Intn(3)))
+		case 15: // ZONEVERSION
+			code, data = 19, append(r.Bytes(2), genBlob(r, 12)...)
 		}
 		out = putUint(out, 2, uint64(code))
 		out = putUint(out, 2, uint64(len(data)))
@@ -525,13 +529,19 @@ func genRdata(r *Rng, pl *specPlan, nameMode int, plainStr bool) (rd []byte, fie
 			kinds[s.Field] = "nsec"
 			plain = false
 		case "unpackDataOpt":
-			rd = append(rd, genOptions(r)...)
+			seg := genOptions(r)
+			rd = append(rd, seg...)
+			fields[s.Field], kinds[s.Field] = seg, "tlv"
 			plain = false
 		case "unpackDataSVCB":
-			rd = append(rd, genSvcParams(r)...)
+			seg := genSvcParams(r)
+			rd = append(rd, seg...)
+			fields[s.Field], kinds[s.Field] = seg, "tlv"
 			plain = false
 		case "unpackDataApl":
-			rd = append(rd, genApl(r)...)
+			seg := genApl(r)
+			rd = append(rd, seg...)
+			fields[s.Field], kinds[s.Field] = seg, "apl"
 			plain = false
 		case "unpackIPSECGateway":
 			plain = false
